@@ -175,7 +175,12 @@ impl HostTimer {
     }
 
     pub(crate) fn tick(&mut self, duration: Duration) {
-        self.elapsed += duration
+        self.elapsed += duration;
+        // The step is over and its progress is now part of `elapsed`. Forget
+        // the step's start `Instant` so code that runs on behalf of the host
+        // between steps (destructors on crash / bounce) neither counts the
+        // last step twice nor compares it against another clock.
+        self.now = None;
     }
 
     /// Set a new `Instant` for each iteration of the simulation. `elapsed` is
@@ -191,7 +196,7 @@ impl HostTimer {
 
     /// Returns how long the host has been executing for in virtual time.
     pub(crate) fn elapsed(&self) -> Duration {
-        let run_duration = self.now.expect("host instant not set").elapsed();
+        let run_duration = self.now.map(|now| now.elapsed()).unwrap_or_default();
         self.elapsed + run_duration
     }
 
